@@ -568,6 +568,43 @@ def gen_cycles(rng):
     return case
 
 
+def gen_shared_dag(rng):
+    """G-shared: the options of 1-2 choices derive overlapping subsets of a small pool of component nodes that derive each
+    other densely (a random DAG, so that a component is reached along many paths and a node can have several successors
+    that were reached before); nested choices hang below some components"""
+    nid = [0]
+
+    def new():
+        nid[0] += 1
+        return nid[0]
+    edges, sel_raw = [], []
+    sysn = new()
+    edges.append([0, sysn])
+    pool = [new() for _ in range(rng.randint(3, 5))]
+    for i in range(len(pool)):
+        for j in range(i + 1, len(pool)):
+            if rng.random() < 0.5:
+                edges.append([pool[i], pool[j]])
+    rng.shuffle(edges)
+    for _ in range(rng.choice([1, 1, 2])):
+        org = sysn if not sel_raw or rng.random() < 0.5 else new()
+        if org != sysn and [0, org] not in edges:
+            edges.append([0, org])
+        opts = [new() for _ in range(rng.choice([2, 2, 3]))]
+        sel_raw.append((org, opts))
+        for o in opts:
+            for comp in rng.sample(pool, rng.randint(1, min(3, len(pool)))):
+                edges.insert(rng.randrange(len(edges) + 1), [o, comp])
+    for host in rng.sample(pool, rng.randint(1, 2)):
+        sel_raw.append((host, [new() for _ in range(rng.choice([2, 2, 3]))]))
+    n = nid[0] + 1
+    sel = [{'id': n + k, 'origin': org, 'options': opts} for k, (org, opts) in enumerate(sel_raw)]
+    case = {'n': n, 'edges': edges, 'sel': sel, 'start': [0], 'incompat': [], 'cons': []}
+    if rng.random() < 0.5:
+        case['order'] = rng.randrange(1 << 30)
+    return case
+
+
 def gen_diamond(rng):
     """G-diamond: fan-out / fan-in derivations below option nodes, some of whose members have a second deriver"""
     nid = [0]
